@@ -23,7 +23,7 @@ def e4 : Ev := ⟨4, 7, .regular⟩
 def cfg2 : Cfg := { workers := 2, maxCount := 2, maxBytes := 35, timeout := 10 }
 /-- two batches, the second send finishes first, commits still in order -/
 def demoOps : List Op :=
-  [.add e1 0, .add e2 1, .sealB, .add e3 2, .sendStart 0, .add e4 3, .sealB, .sendStart 1,
+  [.add e1 0 0, .add e2 1 1, .sealB, .add e3 2 2, .sendStart 0, .add e4 3 3, .sealB, .sendStart 1,
    .sendDone 1 true, .sendDone 0 true, .commit 0, .commit 1]
 
 /-! ## size bounds -/
@@ -45,7 +45,7 @@ theorem size_bounds_cur (c : Cfg) (ops : List Op) (s : State) (hr : Run c ops s)
   have := (reachable_sinv c s (run_reachable hr)).cur b hb
   exact ⟨this.ok, fun hl => by rw [← this.size]; exact this.notReady hl⟩
 
-example : ∃ s, Run cfg2 [.add e1 0, .add e2 1, .sealB] s ∧ s.full.map (·.evs) = [[e1, e2]] := by
+example : ∃ s, Run cfg2 [.add e1 0 0, .add e2 1 1, .sealB] s ∧ s.full.map (·.evs) = [[e1, e2]] := by
   refine ⟨_, rfl, ?_⟩; decide
 
 /-! ## staleness (logical ticks) -/
@@ -53,10 +53,10 @@ example : ∃ s, Run cfg2 [.add e1 0, .add e2 1, .sealB] s ∧ s.full.map (·.ev
 /-- **staleness.** A non-empty current batch whose age exceeds the flush timeout is sealed by
     the next heartbeat, with all its events, whatever else is going on (workers busy, other
     batches in flight). The heartbeat period itself (100 ms) is a real-time assumption. -/
-theorem staleness (c : Cfg) (s : State) (b : Cur) (now : Nat)
+theorem staleness (c : Cfg) (s : State) (b : Cur) (t0 now : Nat)
     (hcur : s.cur = some b) (hne : b.evs ≠ []) (hl : s.locked = false) (hst : s.stopped = false)
     (hage : now - b.start > c.timeout) :
-    ∃ s1 s2 st, step? c s (.heartbeat now) = some s1 ∧ step? c s1 .sealB = some s2 ∧
+    ∃ s1 s2 st, step? c s (.heartbeat t0 now) = some s1 ∧ step? c s1 .sealB = some s2 ∧
       s2.cur = none ∧ (st = .maxSize ∨ st = .timeout) ∧
       s2.full = s.full ++ [{ seq := s.outSeq, evs := b.evs, status := st, iter := b.iter,
                               queued := c.enqueueLocked }] := by
@@ -69,7 +69,7 @@ theorem staleness (c : Cfg) (s : State) (b : Cur) (now : Nat)
     · right; simp [hage]; omega
   have hne' : (readiness c b now != .notReady) = true := by
     rcases hready with h | h <;> simp [h]
-  have h1 : step? c s (.heartbeat now) = some (afterStatus c s b s.free now) := by
+  have h1 : step? c s (.heartbeat t0 now) = some (afterStatus c s b s.free now) := by
     simp [step?, hl, hst, getBatch, hcur]
   have h2 : ∃ s2, step? c (afterStatus c s b s.free now) .sealB = some s2 ∧ s2.cur = none ∧
       s2.full = s.full ++ [{ seq := s.outSeq, evs := b.evs, status := readiness c b now, iter := b.iter,
@@ -78,7 +78,7 @@ theorem staleness (c : Cfg) (s : State) (b : Cur) (now : Nat)
   obtain ⟨s2, h2a, h2b, h2c⟩ := h2
   exact ⟨_, s2, readiness c b now, h1, h2a, h2b, hready, h2c⟩
 
-example : ∃ s, Run cfg2 [.add e1 0, .heartbeat 5, .heartbeat 11, .sealB] s ∧
+example : ∃ s, Run cfg2 [.add e1 0 0, .heartbeat 5 5, .heartbeat 11 11, .sealB] s ∧
     s.cur = none ∧ s.full.map (fun b => (b.evs, b.status)) = [([e1], .timeout)] := by
   refine ⟨_, rfl, rfl, ?_⟩; decide
 
@@ -120,7 +120,7 @@ theorem commit_after_own_send (c : Cfg) (pre : List Op) (k : Nat) (s s' : State)
     exact ⟨by assumption, by assumption⟩
   · simp at hs
 
-example : ∃ s, Run cfg2 [.add e1 0, .add e2 1, .sealB] s ∧ step? cfg2 s (.commit 0) = none :=
+example : ∃ s, Run cfg2 [.add e1 0 0, .add e2 1 1, .sealB] s ∧ step? cfg2 s (.commit 0) = none :=
   ⟨_, rfl, by decide⟩
 
 /-! ## committed = prefix of added -/
@@ -208,7 +208,7 @@ theorem child_parent_skipped (c : Cfg) (ops : List Op) (s : State) (hr : Run c o
   · simp [step?, hf, findBatch, hiter]
   · simp [step?, hf, hseq, hq, hiter]
 
-example : ∃ s, Run cfg2 [.add e3 0, .add e3 1, .sealB] s ∧ step? cfg2 s (.sendStart 0) = none ∧
+example : ∃ s, Run cfg2 [.add e3 0 0, .add e3 1 1, .sealB] s ∧ step? cfg2 s (.sendStart 0) = none ∧
     (step? cfg2 s (.commit 0)).map (·.committed) = some [e3, e3] := ⟨_, rfl, by decide, by decide⟩
 
 /-! ## Stop -/
@@ -246,11 +246,11 @@ theorem stop_commits_only_sent (c : Cfg) (ops : List Op) (s s' : State) (k : Nat
   · simp at hs
 
 /-- after Stop nothing new is accepted: an Add is a no-op -/
-theorem add_after_stop_dropped (c : Cfg) (s : State) (e : Ev) (now : Nat)
-    (hl : s.locked = false) (hst : s.stopped = true) : step? c s (.add e now) = some s := by
+theorem add_after_stop_dropped (c : Cfg) (s : State) (e : Ev) (t0 now : Nat)
+    (hl : s.locked = false) (hst : s.stopped = true) : step? c s (.add e t0 now) = some s := by
   simp [step?, hl, hst]
 
-example : ∃ s, Run cfg2 [.add e1 0, .add e2 1, .sealB, .stop, .sendStart 0, .sendDone 0 true, .commit 0] s ∧
+example : ∃ s, Run cfg2 [.add e1 0 0, .add e2 1 1, .sealB, .stop, .sendStart 0, .sendDone 0 true, .commit 0] s ∧
     s.committed = [e1, e2] ∧ s.panicked = false := ⟨_, rfl, by decide, by decide⟩
 
 /-- Full statement for *any* shape of `trySendBatchAndUnlock`: no reachable state is the panic
@@ -266,7 +266,7 @@ def cfgUnfixed : Cfg := { workers := 2, maxCount := 1, maxBytes := 0, timeout :=
     channel send: "send on closed channel". -/
 theorem stop_safe_counterexample : ¬ StopSafe := by
   intro h
-  have := h cfgUnfixed [.add e1 0, .sealB, .stop, .enqueue 0] _ rfl
+  have := h cfgUnfixed [.add e1 0 0, .sealB, .stop, .enqueue 0] _ rfl
   revert this; decide
 
 end FileD.PropsC08
